@@ -18,7 +18,7 @@ AbsMeta == [i \in Ids |-> IF st[i] = "new" THEN [q |-> 0, topic |-> 0, prio |-> 
                           ELSE [q |-> 1, topic |-> meta[i].topic, prio |-> 1, due |-> meta[i].due, exp |-> meta[i].exp,
                                 dl |-> 0, ver |-> meta[i].ver, dues |-> 0]]
 AbsCons == [c \in Consumers |-> [on |-> cons[c].on, q |-> 1, cat |-> cons[c].cat, topics |-> cons[c].topics]]
-AbsNorder == SelectSeq(simple, LAMBDA i : meta[i].due = NoTime)
+AbsNorder == SelectSeq(simple, LAMBDA i : meta[i].due = NoTime \/ (ret[i] /\ orig[i] = "n"))
 AbsPend == [i \in Ids |-> [q |-> 0, topic |-> 0, prio |-> 0, due |-> 0, exp |-> 0, dl |-> 0, ver |-> 0, dues |-> 0]]
 
 Abs == INSTANCE BrokerAbs WITH loc <- AbsLoc, meta <- AbsMeta, holder <- takenBy, origin <- orig, cons <- AbsCons,
